@@ -501,6 +501,11 @@ func Run(r *corr.Run) {
 	for size := 1; size <= 4 && r.Issues() < 3; size++ {
 		multiqueueCase(r, size)
 	}
+	for i, wk := range []int{1, 2, 3, 2} {
+		if r.Issues() < 3 {
+			openHangCase(r, wk, i == 3, i%2 == 1)
+		}
+	}
 	max := r.Pick(9000, 400000)
 	for i := 0; i < max && r.TimeLeft() && r.Issues() < 3; i++ {
 		randomCase(r, i%7 == 0)
